@@ -14,7 +14,7 @@ Inductive field := FValues | FMask | FUnits | FDerivs | FReadonly.
 Inductive key := KAnti | KCorn | KSlic | KWod | KUnsh.
 Inductive event :=
 | EReq | EChk | ERaise | EPure (c : bool) | EMut (f : field) | EInvFull | EInvVals | EInvKey (k : key)
-| ECall (n : string) | ECallFailed (n : string) | ERet.
+| ECall (n : string) | ECallFailed (n : string) | ERet | EInherit.
 Record fn := mkfn { fcls : string; fname : string; fpaths : list (list event) }.
 
 Definition all_keys := [KAnti; KCorn; KSlic; KWod; KUnsh].
@@ -58,6 +58,7 @@ Definition aev (call : string -> st -> st) (e : event) (s : st) : st :=
   | EInvVals => fun k => match k with KWod | KUnsh => Absent | _ => s k end
   | EInvKey k0 => fun k => if key_eqb k k0 then Absent else s k
   | EPure true => fun k => match s k with Absent => Fresh | t => t end   (* a query may fill the cache *)
+  | EInherit => coherent_st           (* the cache of an object with the same fields, itself coherent *)
   | ECall n => call n s
   | _ => s
   end.
@@ -136,6 +137,14 @@ Local Close Scope string_scope.
 Definition table_cache_ok (tbl : list fn) : bool := forallb (fn_cache_ok tbl) (filter (name_in PUBLIC_MUTATORS) tbl).
 Definition table_atomic (tbl : list fn) : bool := forallb fn_atomic (filter (name_in INPLACE_OPS) tbl).
 Definition table_wfirst (tbl : list fn) : bool := forallb (fn_wfirst tbl) (filter (name_in INPLACE_OPS) tbl).
+
+(* objects derived from a clone that keeps the cache of its source (the number fast paths x + 2., x * 2. ...):
+   whatever existed before, the object the path returns has no possibly-stale entry *)
+Definition is_derived (f : fn) : bool := String.prefix "derived:" (fname f).
+Definition fn_derived_ok (tbl : list fn) (f : fn) : bool :=
+  forallb (fun p => no_stale (apath (acall tbl FUEL) p dirty)) (filter returns (fpaths f)).
+Definition table_derived_ok (tbl : list fn) : bool :=
+  forallb (fn_derived_ok tbl) (filter is_derived tbl) && negb (Nat.eqb (List.length (filter is_derived tbl)) 0).
 
 (* every public mutator must be present (a renamed or deleted method must not make the obligations vacuous) *)
 Definition table_complete (tbl : list fn) : bool :=
